@@ -86,7 +86,7 @@ CHECKS = {
     technique="TLC trace validation (TablesTrace.tla ReflectOK/OperandOK + ParserTrace.tla) over all enumerants, bits, bit pairs and operand variants",
     design="5 C17"),
  "C19": dict(
-    text="Storage.tla (append / fetch_or_append with a possibly non-reflexive equality); MC_Storage checks the C19 sentences on every operation sequence up to 5 (6) for three element types: f64 with +0.0 / -0.0 (equal but distinguishable) and NaN (unequal to itself); a key/tag type equal iff same key and different tag (non-reflexive); numbers equal iff at distance <= 1 (reflexive, symmetric, NOT transitive). Every sequence is replayed on the corresponding real Storage<T>, with lookups through ALL tokens handed out so far after every step; random sequences up to 150 operations are added; StorageTrace validates tokens and lookups.",
+    text="Storage.tla (append / fetch_or_append with a possibly non-reflexive equality); MC_Storage checks the C19 sentences on every operation sequence up to 5 (6) for three element types: f64 with +0.0 / -0.0 (equal but distinguishable) and NaN (unequal to itself); a key/tag type equal iff same key and different tag (non-reflexive); numbers equal iff at distance <= 1 (reflexive, symmetric, NOT transitive). Every sequence is replayed on the corresponding real Storage<T>, with lookups through ALL tokens handed out so far after every step; random sequences up to 150 operations are added; StorageTrace validates tokens and lookups. At scale: StorageBulk.tla reduces the operations on the value list 0, 1, 2, ... to a counter (MC_StorageBulk checks that the reduction is Storage!Apply), and StorageBulkTrace validates runs over 70 000 (quick) / 400 000 (thorough) values of a real Storage<u32> - beyond 2^16 - with lookups through all tokens after every run (observations run-length encoded without loss).",
     note="Values are compared by label (class, tag, equality mode); a lookup must yield the STORED value, not merely an equal one.",
     technique="TLC model checking (MC_Storage) + replay of all model sequences on the real Storage + TLC trace validation (StorageTrace.tla)",
     design="5 C19"),
